@@ -6,6 +6,7 @@
 import Tranp.Lemmas.SessionRef
 import Tranp.Lemmas.UnloadShape
 import Tranp.Lemmas.LoadShape
+import Tranp.Lemmas.SessionOps
 
 namespace Tranp.C04
 open Tranp Tranp.Session
@@ -111,6 +112,18 @@ theorem load_generated (f : Nat) (p : ModPath) (ps : List ModPath) (s : St L) :
   refine ⟨fun rec rollback => load_generated_eq L E rec rollback p s, ?_⟩
   rw [load_generated_eq]
   rfl
+
+/-- The two request paths of a session as GENERATED from the sources (translate/gen_session_ops.py: `Py2Cpp.transpile` = push a
+    dependency frame, `Procedure.exec`, pop, `return result` — no try/finally; `Interactive.rebuild_module` = set the source,
+    unload the in-memory module, `return` its load — unconditionally, in this order; any other statement is a TranslateError), run
+    as programs over the model state: they ARE the hand-written `transpile` / `resubmit` operations, for every state, fuel, module
+    and submitted source -/
+theorem transpile_generated (f : Nat) (s : St L) (m : ModPath) : transpileG L E f s m = transpile L E f s m :=
+  transpileG_eq L E f s m
+
+/-- … `Interactive.rebuild_module` + the generated `Py2Cpp.transpile` on the rebuilt module is the model's `resubmit` -/
+theorem resubmit_generated (f : Nat) (s : St L) (src : Src) : resubmitG L E f s src = resubmit L E f s src :=
+  resubmitG_eq L E f s src
 
 /-- … and of an unregistered module does nothing at all (modules.py:133) -/
 theorem unload_noop (s : St L) (m : ModPath) (hm : m ∉ s.mods) : unload L E s m = s :=
@@ -602,11 +615,16 @@ theorem lib_closure_closed :
     simpa using this
   · cases hp
 
-/-- the bounded instance of the hypothesis `BaseWorld.load` of `det_all` on the shipped closure: after EVERY history of at most three
+/-- FULL statement (not proved; `baseWorld_load_shipped_partial` is its bounded part): the hypothesis `BaseWorld.load` of `det_all` on the
+    shipped closure for histories of ANY length. Below: the bounded instance of the hypothesis `BaseWorld.load` of `det_all` on the shipped closure: after EVERY history of at most three
     operations (load / transpile / unload of any module of the closure) from a fresh process, loading the closure succeeds, registers
     nothing else, completes every module and gives every module the table of a plain load in a fresh process. (The hypothesis
     itself — every reachable base-only state, every fuel — stays a hypothesis: the closure loads through modules that are still
     in the middle of being loaded, which the acyclic reference semantics does not cover.) -/
+def baseWorld_load_shipped_statement : Prop :=
+  ∀ h : List (Op Desc), (∀ op, op ∈ h → op ∈ libOps) → libLoadOk h = true
+
+/-- the part of `baseWorld_load_shipped_statement` that the kernel decides: histories of at most three operations -/
 theorem baseWorld_load_shipped_partial : ∀ h, h ∈ libHistories → libLoadOk h = true := by
   decide +kernel
 
